@@ -243,6 +243,21 @@ func runC20(c *Ctx) {
 						problems = append(problems, fmt.Sprintf("typed Get(%d,%d) = %d, %v; want %d", o.NS, o.NM, id, err, o.ID))
 					}
 				}
+				// Get of a key nobody holds: nil, no error; Get of a key under which the
+				// underlying cache holds an object of another type: an error, never a
+				// typed nil that looks like "absent" (typed_get: TAbsent / TInvalid)
+				if id, err := tc.getID(Str(2), Str(3)+Str(3)); err != nil || id != 0 {
+					problems = append(problems, fmt.Sprintf("typed Get of an absent key returned (%d, %v)", id, err))
+				}
+				if ul, err := uc.Cache().List(); err == nil {
+					for _, o := range ul {
+						if foreign[ID(o)] {
+							if id, err := tc.getID(o.GetNamespace(), o.GetName()); err == nil {
+								problems = append(problems, fmt.Sprintf("typed Get of a key held by an object of another type returned (%d, nil)", id))
+							}
+						}
+					}
+				}
 				// to the model: typed_list / typed_events of the untyped observations
 				var uobjs []*Obj
 				rememberLog(srv)
